@@ -17,7 +17,12 @@ MASK = (1 << 64) - 1
 class Rng:
     """SplitMix64: every random choice of a run derives from VERIF_SEED through this."""
     def __init__(self, seed):
-        self.s = (seed * 0x9E3779B97F4A7C15 + 0x1234567) & MASK
+        # the seed is hashed into the start state: with `state = seed * gamma` neighbouring seeds are the same stream shifted by one
+        # draw, and the first data-dependent number of draws lines them up again (found by the generator audit of C10)
+        z = (seed * 0x9E3779B97F4A7C15 + 0x1234567) & MASK
+        z = ((z ^ (z >> 30)) * 0xBF58476D1CE4E5B9) & MASK
+        z = ((z ^ (z >> 27)) * 0x94D049BB133111EB) & MASK
+        self.s = z ^ (z >> 31)
     def next(self):
         self.s = (self.s + 0x9E3779B97F4A7C15) & MASK
         z = self.s
